@@ -18,6 +18,8 @@ structure Acc where
   fn : String
   write : Bool
   locks : List String
+  /-- the held mutexes that are fields of the same struct as `field` (computed by the extractor) -/
+  own : List String
   fresh : Bool
 deriving Repr, DecidableEq
 
@@ -30,7 +32,11 @@ deriving Repr
 def conflict (a b : Acc) : Bool :=
   a.field == b.field && (a.write || b.write) && !(a.fresh || b.fresh)
 
-def commonLock (a b : Acc) : Bool := a.locks.any (fun l => b.locks.contains l)
+/-- Mutexes are named by declaring struct and field, not by instance. A mutex is therefore only credited
+    when it is a field of the SAME struct as the accessed field (`mt.mu` guarding `mt.routes`): both are
+    then reached through the same object, so the same name means the same mutex instance. A mutex of another
+    object (e.g. a per-watcher mutex held while the shared table is touched) is never credited. -/
+def commonLock (a b : Acc) : Bool := a.own.any (fun l => b.own.contains l)
 
 /-- Ordering arguments that are not a mutex. Each row: all listed functions access the field of
     one object from one goroutine at a time, ordered by the named mechanism. -/
@@ -54,7 +60,7 @@ def confinement : List Confine := [
   -- a builder local to buildPatternRoutes, never shared
   ⟨"routing.patternRouteBuilder.routes", ["routing.patternRouteBuilder.addBinding"], "function-local builder"⟩,
   -- gws ReadLoop goroutine (ParallelEnabled = false ⇒ OnMessage calls are sequential)
-  ⟨"webbridge.gRPCWebSocketStream.closed", ["webbridge.gwsGRPCWebHandler.OnMessage"], "gws read loop goroutine only"⟩,
+  ⟨"webbridge.gRPCWebSocketStream.closed", ["webbridge.gwsGRPCWebHandler.OnMessage", "webbridge.gwsGRPCWebHandler.readMD"], "gws read loop goroutine only"⟩,
   ⟨"webbridge.gRPCWebSocketStream.receivedMD", ["webbridge.gwsGRPCWebHandler.OnMessage", "webbridge.gwsGRPCWebHandler.readMD"], "gws read loop goroutine only"⟩,
   -- send side of a stream: used by the response pump only, one call at a time (Forward LTS single-owner
   -- invariant; httpStream/gwsStream additionally trip the sendActive guard otherwise)
